@@ -1,18 +1,62 @@
 """C04 — a stalled synchronised consumer stalls its producers (bounded buffering)."""
-from .. import protocol, sendfeed, pipeline
+import logging
+from ..core import Violation
+from .. import protocol, sendfeed, pipeline, pairfeed
 
 ID = 'C04'
-PROP_FILES = ['C04', 'C04Potential']
-MODULES = ['OFModel.Zmq.Sender', 'OFModel.Zmq.Receiver', 'OFModel.Gen.Facts']
+PROP_FILES = ['C04', 'C04Potential', 'C04Pair']
+MODULES = ['OFModel.Zmq.Sender', 'OFModel.Zmq.Receiver', 'OFModel.Zmq.Pair', 'OFModel.Gen.Facts']
 RULE = ('adversarial request feeds of a real non-balanced ZMQSender with 1-4 clients (sync and ephemeral), duplicated / stale / ahead requests, clock steps up to and '
         'beyond the connection time-out; for every synchronised client the feed is cut after its last request (= the stall point) and the publishes made while '
-        'it is still tracked are counted against the potential [requested] + queued requests measured on the real object.  non-trivial = at least one publish')
-ASSUMPTIONS = ['sender-level statement: requests in flight in the network and the receiver\'s request rate (one per poll interval + one prefetch) are explored by the '
-               'pipeline simulation (MQNet), not proved', 'libzmq replaced by the in-process fake']
+        'it is still tracked are counted against the potential [requested] + queued requests measured on the real object.  Closed loop (OFProps/C04Pair.lean): a REAL ZMQSender and a REAL '
+        'ZMQReceiver wired through fakezmq run a random reachable prefix (restarts anywhere), then the consumer stalls for N in {5, 50, 500} send calls (clock steps up to and beyond the '
+        'connection time-out); oracle pair-overrun-after-stall: more than one frame set published (none if one is already waiting), or more than one queued at the real SUB socket; '
+        'the same schedule through OF.Pair, compared event by event.  non-trivial = at least one publish')
+ASSUMPTIONS = ['sender-level statement for any number of clients: requests in flight in the network and the receiver\'s request rate (one per poll interval + one prefetch) are explored by the '
+               'pipeline simulation (MQNet), not proved; closed loop proved for the pair of one publisher and one synchronised consumer (C04_pair_stall_bounded: at most ONE more frame set, for every '
+               'reachable state and every stall length; C04_pair_one_block_in_flight; C04_pair_resumes), immediate loss-free delivery, libzmq timing not modelled', 'libzmq replaced by the in-process fake']
 TRUSTED = ['transcription OFModel/Zmq/Sender.lean, compared call-by-call with the real class']
 
 
+def pair_stall_campaign(ctx, per_n):
+    logging.disable(logging.CRITICAL)
+    res, rng = ctx.result, ctx.rng
+    trials = [c['trial'] for c in ctx.corpus if c.get('feed') == 'pair-stall']
+    if ctx.replay and ctx.replay.get('case', {}).get('feed') == 'pair-stall': trials = [ctx.replay['case']['trial']]; per_n = 0
+    for n in (5, 50, 500):
+        for _ in range(per_n):
+            pre = pairfeed.gen_prefix(rng)
+            t0 = max([1000] + [e['t'] for e in pre if e['k'] == 'send'])
+            trials.append({'prefix': pre, 'stall': pairfeed.gen_stall(rng, n, t0)})
+    runs = [pairfeed.run_stall(t) for t in trials]
+    model = ctx.driver.batch([pairfeed.model_request(t) for t in trials]) if ctx.driver else None
+    hist = {}
+    for idx, (t, (obs, info)) in enumerate(zip(trials, runs)):
+        npre = len(t['prefix'])
+        npub = sum(1 for (o, _) in obs[npre:] if o['k'] == 'sent' and any(x['k'] == 'pub' and x['mid'] >= 0 for x in o['outs']))
+        res.note({'feed': 'pair-stall', 'prefix_events': npre, 'stall_sends': len(t['stall']), 'published_during_stall': npub, 'waiting_before': info['before']}, nontrivial=False)
+        if npub: res.nontrivial.add(f'pair-stall:{ctx.seed}:{idx}:{npre}:{len(t["stall"])}')
+        k = f"N={len(t['stall'])}:published={npub}:waiting_before={len(info['before'])}"
+        hist[k] = hist.get(k, 0) + 1
+        for key, what in pairfeed.stall_oracle(t, obs, info)[:1]:
+            res.violations.append(Violation(key, what, {'feed': 'pair-stall', 'trial': t}))
+        if model is not None:
+            r = model[idx]
+            if 'err' in r:
+                res.disagreements.append({'point': 'pair.run', 'case': {'feed': 'pair-stall', 'trial': t}, 'impl': None, 'model': r}); continue
+            m = pairfeed.canon_model(r)
+            io = [(a, b) for a, b in obs]
+            if m != io:
+                ci = next((i for i, (a, b) in enumerate(zip(io, m)) if a != b), min(len(io), len(m)))
+                res.disagreements.append({'point': f'pair-stall event #{ci}: real ZMQSender/ZMQReceiver vs OF.Pair.step', 'case': {'feed': 'pair-stall', 'trial': t},
+                                          'impl': io[ci] if ci < len(io) else None, 'model': m[ci] if ci < len(m) else None})
+            else:
+                res.traces_validated += 1
+    res.extra['pair_stall'] = hist
+
+
 def run(ctx):
+    pair_stall_campaign(ctx, 60 if ctx.thorough else 12)
     n = 10000 if ctx.thorough else (4000 if ctx.escalate else 1000)
     protocol.send_campaign(ctx, 'C04', n, ['sync', 'sync', 'adv'], extra_oracle=sendfeed.stall_oracle)
     protocol.recv_campaign(ctx, 'C04', n, ['wf', 'adv'])        # the consumer's half of the flow control: what its requests say
